@@ -210,6 +210,29 @@ Theorem C06_cycle_discovery_refuted :
 Proof. split; [exact ring3_never_quiet|exact ring3_payload_delivered]. Qed.
 Print Assumptions C06_cycle_discovery_refuted.
 
+Definition ups_of (w : world) : list obs :=
+  filter (fun o => match o with OUp _ _ _ _ => true | _ => false end) (rev (trace w)).
+
+(* C06_reply_routable is FALSE of the code when the originator is an application on a router: router with ports
+   (net 1, net 2), local adapter = net 2, broadcasts globally; the station on net 1 is shown the router's net-1
+   address in local form; its reply to that address arrives on the non-local adapter and is handed to nobody. *)
+Definition router_app_world : world :=
+  mkWorld
+    [mkW (mkNode [mkAd (Some 1) (Some [10]); mkAd (Some 2) (Some [10])] true [] []) [(1, [10]); (2, [10])];
+     mkW (mkNode [mkAd (Some 1) (Some [1])] true [] []) [(1, [1])];
+     mkW (mkNode [mkAd (Some 2) (Some [1])] true [] []) [(2, [1])]]
+    [(1, [(0, 0); (1, 0)]%nat); (2, [(0, 1); (2, 0)]%nat)] [] [].
+Theorem C06_reply_routable_refuted :
+  let w1 := run 20 (submit router_app_world 0 AGB [16; 99; 1]) in
+  ups_of w1 = [OUp 1 (ALS [10]) AGB [16; 99; 1]; OUp 2 (ALS [10]) AGB [16; 99; 1]] /\ queue w1 = [] /\
+  let w2 := run 20 (submit (mkWorld (nodes w1) (lans w1) [] []) 1 (ALS [10]) [16; 99; 2]) in
+  queue w2 = [] /\ ups_of w2 = [] /\
+  (* whereas the station on the local adapter's network does reach it *)
+  ups_of (run 20 (submit (mkWorld (nodes w1) (lans w1) [] []) 2 (ALS [10]) [16; 99; 3]))
+  = [OUp 0 (ALS [1]) (ALS [10]) [16; 99; 3]].
+Proof. vm_compute. repeat split. Qed.
+Print Assumptions C06_reply_routable_refuted.
+
 (* ---- non-vacuity *)
 (* a three-port router forwards a global broadcast received on port 0 to ports 1 and 2 with hop - 1 and SADR *)
 Example C06_forward_example :
@@ -282,21 +305,19 @@ Definition tree4 : world :=
     [(1, [(0, 0); (2, 0)]%nat); (2, [(0, 1); (3, 0)]%nat); (3, [(0, 2); (1, 0); (4, 0)]%nat);
      (4, [(1, 1); (5, 0); (6, 0)]%nat)]
     [] [].
-Definition ups (w : world) : list obs :=
-  filter (fun o => match o with OUp _ _ _ _ => true | _ => false end) (rev (trace w)).
 
 Example C06_tree_unicast_example :
   let w := run 100 (submit tree4 2 (ARS 4 [2]) [16; 99; 1]) in
-  queue w = [] /\ ups w = [OUp 6 (ARS 1 [1]) (ALS [2]) [16; 99; 1]].
+  queue w = [] /\ ups_of w = [OUp 6 (ARS 1 [1]) (ALS [2]) [16; 99; 1]].
 Proof. vm_compute. split; reflexivity. Qed.
 
 Example C06_tree_remote_broadcast_example :
   let w := run 100 (submit tree4 2 (ARB 4) [16; 99; 2]) in
-  queue w = [] /\ ups w = [OUp 5 (ARS 1 [1]) ALB [16; 99; 2]; OUp 6 (ARS 1 [1]) ALB [16; 99; 2]].
+  queue w = [] /\ ups_of w = [OUp 5 (ARS 1 [1]) ALB [16; 99; 2]; OUp 6 (ARS 1 [1]) ALB [16; 99; 2]].
 Proof. vm_compute. split; reflexivity. Qed.
 
 Example C06_tree_global_broadcast_example :
   let w := run 100 (submit tree4 2 AGB [16; 99; 3]) in
-  queue w = [] /\ ups w = [OUp 3 (ARS 1 [1]) AGB [16; 99; 3]; OUp 4 (ARS 1 [1]) AGB [16; 99; 3];
+  queue w = [] /\ ups_of w = [OUp 3 (ARS 1 [1]) AGB [16; 99; 3]; OUp 4 (ARS 1 [1]) AGB [16; 99; 3];
                            OUp 5 (ARS 1 [1]) AGB [16; 99; 3]; OUp 6 (ARS 1 [1]) AGB [16; 99; 3]].
 Proof. vm_compute. split; reflexivity. Qed.
